@@ -16,7 +16,7 @@ LEVEL_TEXT = ("Theorem parse_valid (Coq, no axioms, nested induction over syntax
               "(every whitespace layout, escape form incl. any hex case, surrogate pairing / unpaired replacement, number shape, duplicate members, nesting "
               "below the limit D, integers within the 64-bit ranges, member names without U+0000) in default AND strict mode the tokener model returns exactly "
               "the denoted value with status success and the end offset at the end of the text; parse_depth: nesting >= D gives the depth error.  Integer tokens "
-              "of any length convert exactly or saturate/reject beyond 64 bits, also at document level (parse_valid_sat: every valid document is accepted in default mode with out-of-range integers saturated; parse_strict_rejects_big: strict mode rejects a document containing one anywhere); from_fd_valid: the parse step of json_object_from_fd_ex / from_fd / from_file (two calls, the second on the terminating NUL) returns the denoted value of every valid text with or without trailing blanks; the refutation for names containing U+0000 carries its witness (known finding).  "
+              "of any length convert exactly or saturate/reject beyond 64 bits, also at document level (parse_valid_sat: every valid document is accepted in default mode with out-of-range integers saturated; parse_strict_rejects_big: strict mode rejects a document containing one anywhere); validate_utf8_neutral / parse_valid_utf8: with JSON_TOKENER_VALIDATE_UTF8 every document that is valid UTF-8 is parsed to the same value (validation is neutral on valid UTF-8, for any grammar); from_fd_valid: the parse step of json_object_from_fd_ex / from_fd / from_file (two calls, the second on the terminating NUL) returns the denoted value of every valid text with or without trailing blanks; the refutation for names containing U+0000 carries its witness (known finding).  "
               "The model is tied to json_tokener.c on every run by differential execution on generated texts, and an independent denotation oracle checks the C output.")
 LEVEL_NOTE = ("Trusted: Coq kernel; strtod is an oracle (the theorem is stated for every oracle; the run compares libc with Python's correctly rounded float()); "
               "the theorems are about the Gallina model, tied to the C code by sampled differential execution; extraction + OCaml glue; harness.")
